@@ -77,10 +77,28 @@ def canon(text, readers):
     return text
 
 
+def alpha_params(text):
+    """rename the parameters of `fn name(p: T, ..) ..` to a0, a1, .. throughout the function text (struct field NAMES are left alone;
+    the field shorthand `{ id, ..}` is first written out as `{ id: id, ..}`)"""
+    m = re.match(r'(fn \w+(?:<\'a>)?\()([^)]*)(\).*)', text)
+    if not m:
+        return text
+    head, params, rest = m.groups()
+    rest = re.sub(r'Pattern::MetaVar \{ id, ', 'Pattern::MetaVar { id: id, ', rest)
+    names = [x.split(':')[0].replace('mut ', '').strip() for x in params.split(',') if ':' in x]
+    newparams = params
+    for k, par in enumerate(names):
+        if par and par != 'self':
+            newparams = re.sub(r'\b' + re.escape(par) + r'\b(?=\s*:)', f'a{k}', newparams, count=1)
+            rest = re.sub(r'\b' + re.escape(par) + r'\b(?!\s*:)', f'a{k}', rest)
+    return head + newparams + rest
+
+
 def canon_helper(text):
     """helper bodies: `return X;` as last statement / in a match arm is the value X"""
     text = re.sub(r'^(fn [^{]*\{ )return (.*); \}$', r'\1\2 }', text)
     text = re.sub(r'=> return (\w+),', r'=> \1,', text)
+    text = re.sub(r'Term::(Pattern|Proved)\((\w+)\) => \2,', r'Term::\1(p) => p,', text)
     text = re.sub(r'\{ let Term::(Pattern|Proved)\((\w+)\) = pop_stack\(stack\) else \{ (panic!\(""\));? \}; \2 \}$',
                   r'{ match pop_stack(stack) { Term::\1(\2) => \2, _ => \3 } }', text)
     text = re.sub(r'(Term::(?:Pattern|Proved)\(\w+\) => \w+, )Term::(?:Pattern|Proved)\(_\) => panic', r'\1_ => panic', text)
@@ -250,6 +268,7 @@ class Tr:
         self.fresh = 0
         self.vecs = set()     # Rust Vec accumulators declared empty (ids, plugs)
         self.terms = set()    # locals of Rust type Term / &Term / &Entry (model: [term])
+        self.structs = {}     # locals holding a struct of pattern-valued fields (expanded into one definition per field)
 
     def tmp(self):
         self.fresh += 1
@@ -258,6 +277,9 @@ class Tr:
     # ---- expressions of type Rc<Pattern> / Id; `pre` collects partial sub-computations as (kind, binder, args) --------------------------
     def expr(self, e, pre):
         e = e.strip()
+        m = re.fullmatch(r'Rc::clone\(&?(\w+)\.(\w+)\)', e) or re.fullmatch(r'(\w+)\.(\w+)\.clone\(\)', e)
+        if m:
+            return v(m.group(1) + '__' + m.group(2))
         m = re.fullmatch(r'Rc::clone\(&?(\w+)\)', e) or re.fullmatch(r'(\w+)\.clone\(\)', e) or re.fullmatch(r'&(\w+)', e) \
             or re.fullmatch(r'\*(\w+)', e)
         if m:
@@ -337,6 +359,11 @@ class Tr:
     def stmt(self, s, rest):
         """s: one normalised statement; rest(): Coq text of what follows"""
         s = s.strip().rstrip(';').strip()
+        m = re.fullmatch(r'let Pattern::Implies \{ left, right \} = (.*?)\.as_ref\(\) else \{ (?:panic|unreachable)!\(.*\);? \}', s)
+        if m:
+            pre = []
+            x = self.expr(m.group(1), pre)
+            return self.wrap_pre(pre, f'match {x} with Imp v_left v_right => {rest()} | _ => {NONE} end')
         # S1 read one byte
         m = re.fullmatch(r'let (\w+) = \*iterator\.next\(\)\.expect\(""\)(?: as (?:Id|usize))?', s)
         if m:
@@ -382,12 +409,28 @@ class Tr:
         if m:
             self.terms.add(m.group(1))
             return f'match nth_error mem (N.to_nat {v(m.group(2))}) with Some {v(m.group(1))} => {rest()} | None => {NONE} end'
-        m = re.fullmatch(r'stack\.push\((\w+)(?:\.to_term\(\)|\.clone\(\))?\)', s)
+        m = re.fullmatch(r'stack\.push\((?:Term::from\()?&?(\w+)(?:\.to_term\(\)|\.clone\(\)|\.into\(\))?\)?\)', s)
         if m and m.group(1) in self.terms:
             return f'let stk := {v(m.group(1))} :: stk in {rest()}'
-        m = re.fullmatch(r'memory\.push\((\w+)\.to_entry\(\)\)', s)
+        m = re.fullmatch(r'memory\.push\((?:Entry::from\()?&?(\w+)(?:\.to_entry\(\)|\.into\(\))?\)?\)', s)
         if m and m.group(1) in self.terms:
             return f'let mem := mem ++ [{v(m.group(1))}] in {rest()}'
+        m = re.fullmatch(r'stack\.push\(Term::from\(&memory\[(\w+) as usize\]\)\)', s) or \
+            re.fullmatch(r'stack\.push\(\(&memory\[(\w+) as usize\]\)\.into\(\)\)', s)
+        if m:
+            return (f'match nth_error mem (N.to_nat {v(m.group(1))}) with Some t_entry => let stk := t_entry :: stk in {rest()} '
+                    f'| None => {NONE} end')
+        # `match &mut T { Term::Pattern(p) | Term::Proved(p) => instantiate_in_place(p, &ids, &plugs) }`: same function on either tag
+        m = re.fullmatch(r'match &mut (\w+) \{ Term::Pattern\((\w+)\) \| Term::Proved\(\2\) => instantiate_in_place\(\2, &ids, &plugs\),? \}', s)
+        if m and m.group(1) in self.terms:
+            x = v(m.group(1))
+            return (f'match {x} with TPat p_i => match gen_instantiate_in_place p_i v_ids v_plugs with Some q_i => let {x} := TPat q_i in {rest()} '
+                    f'| None => {NONE} end | TProved p_i => match gen_instantiate_in_place p_i v_ids v_plugs with Some q_i => '
+                    f'let {x} := TProved q_i in {rest()} | None => {NONE} end end')
+        m = re.fullmatch(r'let (?:mut )?(\w+) = pop_stack\(stack\)', s)
+        if m:
+            self.terms.add(m.group(1))
+            return f'match stk with {v(m.group(1))} :: stk => {rest()} | [] => {NONE} end'
         # S4 / S3 let X = EXPR (pops and partial calls come out of the expression prelude)
         m = re.fullmatch(r'let (?:mut )?(\w+) = (.*)', s)
         if m and not m.group(2).startswith('match ') and 'claims.pop()' not in m.group(2):
@@ -484,10 +527,38 @@ class Tr:
 FINAL = 'Some (bs, mkst stk mem cl)'
 
 
-def gen_preamble(tr, pre_stmts):
-    """`let phi0 = ...; let prop1 = ...;` before the loop -> Definitions"""
+def gen_preamble(tr, pre_stmts, src=''):
+    """`let phi0 = ...; let prop1 = ...;` before the loop -> Definitions.  A struct built by `let X = S::new();` whose constructor is such a
+    sequence of lets followed by the struct literal is expanded: its fields become the definitions, `X.field` refers to them."""
     defs, names = [], []
+    expanded = []
     for s in pre_stmts:
+        sm = re.fullmatch(r'let (\w+) = (\w+)::new\(\)', s.rstrip(';').strip())
+        if sm:
+            var, st = sm.groups()
+            im = re.search(r'\nimpl ' + st + r' \{', src)
+            if not im:
+                fail('constructor of ' + st + ' not found')
+            body = src[im.start():match_close(src, src.index('{', im.start())) + 1]
+            nm = re.search(r'fn new\(\) -> (?:Self|' + st + r') \{', body)
+            if not nm:
+                fail(st + '::new has an unexpected signature')
+            j = body.index('{', nm.start())
+            ctor = norm(body[j + 1:match_close(body, j)])
+            lm = re.fullmatch(r'(.*) (?:Self|' + st + r') \{ (.*) \}', ctor)
+            if not lm:
+                fail(st + '::new does not end with the struct literal')
+            expanded += split_stmts(lm.group(1))
+            for fld in split_top(lm.group(2)):
+                if ':' in fld:
+                    k, val = [x.strip() for x in fld.split(':', 1)]
+                    expanded.append(f'let {var}__{k} = {val}')
+                else:
+                    expanded.append(f'let {var}__{fld.strip()} = Rc::clone(&{fld.strip()})')
+            tr.structs[var] = True
+            continue
+        expanded.append(s)
+    for s in expanded:
         m = re.fullmatch(r'let (\w+) = (.*)', s.rstrip(';'))
         if not m:
             fail('preamble statement: ' + s[:100])
@@ -532,6 +603,23 @@ def check_conversions(src):
                 f'{a}::Proved(p) => {b}::Proved(Rc::clone(p)) }} }}')
         if body != want:
             fail(f'{name} is not the tag-preserving copy: ' + body[:200])
+
+
+def check_from_impls(src):
+    for a, b in (('Term', 'Entry'), ('Entry', 'Term')):
+        m = re.search(r'impl From<&' + a + r'> for ' + b + r' \{', src)
+        if not m:
+            continue
+        body = norm(src[m.start():match_close(src, src.index('{', m.start())) + 1]).replace('p.clone()', 'Rc::clone(p)')
+        want = (f'impl From<&{a}> for {b} {{ fn from(a0: &{a}) -> {b} {{ match a0 {{ {a}::Pattern(p) => {b}::Pattern(Rc::clone(p)), '
+                f'{a}::Proved(p) => {b}::Proved(Rc::clone(p)) }} }} }}')
+        got = re.sub(r'fn from\((\w+): ', 'fn from(a0: ', body)
+        pm = re.search(r'fn from\((\w+): ', body)
+        if pm:
+            got = re.sub(r'\b' + pm.group(1) + r'\b', 'a0', body)
+        got = got.replace('-> Self', f'-> {b}')
+        if got != want:
+            fail(f'impl From<&{a}> for {b} is not the tag-preserving copy: ' + got[:200])
 
 
 def check_types(src):
@@ -604,16 +692,22 @@ def generate(repo):
     src = src.split('\n#[cfg(test)]\nmod tests')[0]
     check_types(strip_strings(src))
     check_conversions(strip_strings(src))
+    check_from_impls(strip_strings(src))
     readers = reader_helpers(src)
     for name, want in HELPERS.items():
         got = canon_helper(canon(norm(find_fn(src, name)), readers))
+        got = re.sub(r'\{ id: (\w+), e_fresh', r'{ id, e_fresh', got) if False else got
         if name == 'read_u8_vec':
             got = got.replace("fn read_u8_vec(iterator", "fn read_u8_vec<'a>(iterator")
             lm = re.search(r'let mut (\w+): Vec<u8> = Vec::with_capacity\(len\)', got)
             if lm and lm.group(1) != 'vec':
                 got = re.sub(r'\b' + lm.group(1) + r'\b', 'vec', got)
             got = re.sub(r'vec\.push\((\*iterator\.next\(\)\.expect\(""\))\); \} return vec; \}$', r'vec.push(\1); } vec }', got)
-        if got != want:
+        if name == 'read_u8_vec':
+            # the vector built by an iterator chain instead of the push loop
+            got = re.sub(r'\(0\.\.len\)\.map\(\|_\| \{? ?(\*iterator\.next\(\)\.expect\(""\)) ?\}?\)\.collect\(\) \}$',
+                         r'let mut vec: Vec<u8> = Vec::with_capacity(len); for _ in 0..len { vec.push(\1); } vec }', got)
+        if alpha_params(got) != alpha_params(want):
             fail(f'helper {name} is not the expected definition: {got[:160]}')
     bot_def = canon_helper(norm(find_fn(src, 'bot')))
     not_def = canon_helper(norm(find_fn(src, 'not')))
@@ -623,10 +717,10 @@ def generate(repo):
         fail('fn bot: ' + bot_def)
     pre = []
     bot_e = tr.expr(m.group(1), pre)
-    m = re.fullmatch(r'fn not\(pat: Rc<Pattern>\) -> Rc<Pattern> \{ (.*) \}', not_def)
+    m = re.fullmatch(r'fn not\((\w+): Rc<Pattern>\) -> Rc<Pattern> \{ (.*) \}', not_def)
     if not m or pre:
         fail('fn not: ' + not_def)
-    not_e = tr.expr(m.group(1), pre)
+    not_e = tr.expr(re.sub(r'\b' + m.group(1) + r'\b', 'pat', m.group(2)), pre)
     if pre:
         fail('bot/not are not total expressions')
 
@@ -636,7 +730,7 @@ def generate(repo):
                      r'while let Some\((?P<iv>\w+)\) = iterator\.next\(\) \{ match Instruction::from\(\*(?P=iv)\) \{ (?P<arms>.*) \} \} \}', fn)
     if not m:
         fail('unexpected shape of execute_instructions (signature / iterator / single while-let loop over Instruction::from)')
-    defs, names = gen_preamble(tr, split_stmts(m.group('pre')))
+    defs, names = gen_preamble(tr, split_stmts(m.group('pre')), strip_strings(src))
     arms = split_arms(m.group('arms'))
     impl = opcodes.rust_implemented(src)
     out, seen = [], set()
@@ -645,6 +739,8 @@ def generate(repo):
             if not (tr.is_panic(text.strip())):
                 fail('default arm of the instruction match is not unimplemented!/panic!')
             continue
+        if '|' in pat and tr.is_panic(text.strip().rstrip(';')):
+            continue        # `Instruction::A | Instruction::B => unimplemented!(..)`: the same as the default arm
         mm = re.fullmatch(r'Instruction::(\w+)', pat)
         if not mm or mm.group(1) not in opcodes.NAME:
             fail('instruction arm ' + pat)
